@@ -48,7 +48,9 @@ def match_finding(finding, condname, reason, args):
     w = finding.get('where')
     if w:
         try:
-            if not eval(w, {'re': re}, dict(args)):
+            g = dict(args)
+            g['re'] = re
+            if not eval(w, g):
                 return False
         except Exception:
             return False
